@@ -135,7 +135,8 @@ def make_grid(rng, S, T, V, orient='ax', direction=1, gap=2.0, origin=(0., 0., 0
                     else:
                         x = {'const': 3, 't': 2 + 3 * t, 'v': 1 + 2 * v, 'tv': 1 + t + T * v, 's': 1 + s,
                              'cell': 1 + cell, 'rcell': 1 + perm[cell],
-                             'st': 2 + 4 * t + Fraction(s, 8), 'trev': 20 - 3 * t}[rule]
+                             'st': 2 + 4 * t + Fraction(s, 8), 'trev': 20 - 3 * t,
+                             't0': 3 * t, 'v0': 2 * v}[rule]
                     tags[tag] = tag_value(tag, x)
                 files.append({'id': k, 'ipp': ipp, 'iop': list(iop), 'rows': rows, 'cols': cols,
                               'ps': list(ps), 'pix': True, 'tags': tags, 'cell': [s, t, v]})
@@ -427,6 +428,50 @@ def value_of(kind, obj):
     return dict((k, sha(json.dumps(p[k]).encode())) for k in PART_KEYS)
 
 
+META_FILTERS = [
+    {'kind': 'regex', 'excl': ['Time']},                  # AcquisitionTime (slice timing), EchoTime, RepetitionTime ...
+    {'kind': 'regex', 'excl': ['^Bits']},                 # BitsStored (signed-short hack of get_data)
+    {'kind': 'regex', 'excl': ['EchoTime', 'InversionTime', 'RepetitionTime', 'FlipAngle', 'TriggerTime',
+                               'AcquisitionTime', 'ContentTime', 'AcquisitionNumber', 'InstanceNumber']},
+    {'kind': 'regex', 'excl': ['InstanceNumber', 'Number$']},
+    {'kind': 'regex', 'excl': ['.*'], 'incl': ['^Rows$', 'Columns']},
+    {'kind': 'regex', 'excl': ['Time', 'Bits', 'Number'], 'incl': ['EchoTime']},
+    {'kind': 'lambda', 'name': 'time'},
+    {'kind': 'lambda', 'name': 'all'},
+    {'kind': 'lambda', 'name': 'none'},
+    {'kind': 'lambda', 'name': 'numbers'},
+]
+
+
+def make_meta_filter(dcmstack, mf):
+    """the `meta_filter` constructor argument of a case (None: the library's default filter)"""
+    if mf is None:
+        return None
+    if mf['kind'] == 'regex':
+        return dcmstack.make_key_regex_filter(list(mf['excl']), list(mf.get('incl') or []))
+    return {'time': lambda key, val: 'Time' in key,
+            'all': lambda key, val: True,
+            'none': lambda key, val: False,
+            'numbers': lambda key, val: isinstance(val, (int, float)) and not isinstance(val, bool)}[mf['name']]
+
+
+def aff16(a):
+    """a 4x4 array of doubles as 16 exact fractions, row major"""
+    import numpy as np
+    return [fr(Fraction(float(x))) for x in np.asarray(a, dtype=np.float64).ravel()]
+
+
+def file_affine(ds):
+    """the affine of the NiftiWrapper made for a data set: diag(-1,-1,1,1) x DicomWrapper.affine (nibabel: a
+    contract); None when nibabel refuses the orientation"""
+    import numpy as np
+    from nibabel.nicom.dicomwrappers import wrapper_from_data, WrapperError
+    try:
+        return aff16(np.dot(np.diag([-1., -1., 1., 1.]), wrapper_from_data(ds).affine))
+    except WrapperError:
+        return None
+
+
 class Runner(object):
     """Drives one DicomStack through a history.  Nothing private is read: which files were accepted follows from
     add_dcm raising or not, the order of the files in a result from the pixel values."""
@@ -434,8 +479,11 @@ class Runner(object):
     def __init__(self, dcmstack, case):
         self.dcmstack = dcmstack
         self.case = case
+        kw = {}
+        if case.get('meta_filter') is not None:
+            kw['meta_filter'] = make_meta_filter(dcmstack, case['meta_filter'])
         self.stack = dcmstack.DicomStack(time_order=make_ordering(dcmstack, case.get('time_order')),
-                                         vector_order=make_ordering(dcmstack, case.get('vector_order')))
+                                         vector_order=make_ordering(dcmstack, case.get('vector_order')), **kw)
         self.ds = {}
         self.accepted = []       # indices into case['files'], since the last clear()
         self.last = None
@@ -492,7 +540,8 @@ class Runner(object):
 
     def apply(self, op):
         st = self.stack
-        out = {'r': 'ok', 'shape': None, 'dtype': None, 'pixdim4': None, 'phase': None, 'order': None, 'val': None}
+        out = {'r': 'ok', 'shape': None, 'dtype': None, 'pixdim4': None, 'phase': None, 'order': None, 'aff': None,
+               'val': None}
         try:
             if op[0] == 'add':
                 spec = self.case['files'][op[1]]
@@ -519,6 +568,7 @@ class Runner(object):
                 self.keep('data', arr)
             elif op[0] == 'affine':
                 aff = st.get_affine()
+                out['aff'] = aff16(aff)
                 out['val'] = value_of('affine', aff)
                 self.keep('affine', aff)
             elif op[0] in ('nifti', 'wrapper'):
@@ -528,6 +578,8 @@ class Runner(object):
                     self.last = st.to_nifti_wrapper(op[1]).nii_img
                 out['dtype'] = dtype_code(self.last.get_data_dtype())
                 self.header_obs(out, op[1])
+                if not op[1]:
+                    out['aff'] = aff16(self.last.affine)      # no reorientation: the image carries get_affine's array
                 out['val'] = value_of('nifti', self.last)
                 self.keep('nifti', self.last)
             else:
@@ -566,9 +618,12 @@ class Runner(object):
 def run_history(dcmstack, case):
     """-> (runner, observation): per-file abstraction (model input), per-op public results, want-flip flags"""
     r = Runner(dcmstack, case)
-    absf = []
+    absf, affs = [], []
     for i, spec in enumerate(case['files']):
         absf.append(abstract_file(dcmstack, spec, r.dataset(i), case))
+        a = file_affine(r.dataset(i)) if spec.get('pix', True) else None
+        if a is not None:
+            affs.append([spec['id'], a])
     ops = []
     vos = {}
     for op in case['ops']:
@@ -579,7 +634,7 @@ def run_history(dcmstack, case):
     for op in case['ops']:
         if op[0] in ('nifti', 'wrapper') and (op[1] or '') not in vos:
             vos[op[1] or ''] = None if not op[1] else False
-    return r, {'files': absf, 'ops': ops, 'vo': vos, 'guesses': list(dcmstack.DicomStack.sort_guesses),
+    return r, {'files': absf, 'affs': affs, 'ops': ops, 'vo': vos, 'guesses': list(dcmstack.DicomStack.sort_guesses),
                'accepted': list(r.accepted), 'changed': r.changed}
 
 
@@ -628,14 +683,15 @@ MODEL_ERRS = ('EInvalidStack', 'EIncongruent', 'ECollision', 'ENonImage', 'EType
 
 
 def coq_obs(o):
-    """(exception class, shape, dtype code, pixdim[4], phase code, file order of the returned voxels)"""
+    """(exception class, shape, dtype code, pixdim[4], phase code, file order of the returned voxels, affine)"""
     r = 'None' if o['r'] == 'ok' else '(Some %s)' % (o['r'] if o['r'] in MODEL_ERRS else 'ECrash')
     sh = copt(o['shape'], lambda s: clist(cnat(x) for x in s))
     order = o.get('order')
     if order is not None and any(x < 0 for x in order):
         order = [99999 if x < 0 else x for x in order]       # a block of voxels that is no accepted file's
-    return '(%s, %s, %s, %s, %s, %s)' % (r, sh, copt(o.get('dtype'), cnat), copt(o.get('pixdim4'), cQ),
-                                         copt(o.get('phase'), cnat), copt(order, lambda l: clist(cnat(x) for x in l)))
+    return '(%s, %s, %s, %s, %s, %s, %s)' % (r, sh, copt(o.get('dtype'), cnat), copt(o.get('pixdim4'), cQ),
+                                             copt(o.get('phase'), cnat), copt(order, lambda l: clist(cnat(x) for x in l)),
+                                             copt(o.get('aff'), lambda l: clist(cQ(x) for x in l)))
 
 
 def model_ops(case, obs):
@@ -660,10 +716,11 @@ def model_ops(case, obs):
 
 def coq_case(case, obs):
     if not isinstance(obs, dict) or 'crash' in obs or 'ops' not in obs:
-        return '(mkcase false false [] [(None, None, None, None, None, None)])'      # never matches: flags the crash
+        return '(mkcase false false [] [] [(None, None, None, None, None, None, None)])'      # never matches: flags the crash
     keep = model_ops(case, obs)
-    return '(mkcase %s %s %s %s)' % (
+    return '(mkcase %s %s %s %s %s)' % (
         cbool(case.get('time_order') is not None), cbool(case.get('vector_order') is not None),
+        clist(cpair(cnat(i), clist(cQ(x) for x in a)) for i, a in obs.get('affs', [])),
         clist(coq_op(case, obs, op) for op, o in keep),
         clist(coq_obs(o) for op, o in keep))
 
@@ -832,7 +889,8 @@ def rand_config(rng, tier, want=None, force_abs=False):
     rules = {}
     if mode in ('time', 'timevec'):
         key = rng.choice(['EchoTime', 'TriggerTime', 'AcquisitionNumber', 'InversionTime'] + ([] if force_abs else ['AcquisitionTime']))
-        rules[key] = rng.choice(['t', 't', 'trev', 'tv'])
+        # 't0' / 'v0': the ordinates start at 0 (int 0 / float 0.0: a falsy value is an ordinate like any other)
+        rules[key] = rng.choice(['t', 't', 't0', 't0', 'trev', 'tv'])
         cfg['time_order'] = {'key': key, 'abs': None}
         if S >= 2 and rng.random() < 0.25 and not force_abs:
             # staggered time ordinate: the r lowest positions of volume t carry the value of volume t+1, so a run
@@ -843,7 +901,7 @@ def rand_config(rng, tier, want=None, force_abs=False):
             rules[key] = _Stag(S, r, asc)
         elif (force_abs or rng.random() < 0.2) and key not in TM_TAGS:
             rule = rules[key]
-            vals = sorted(set(tag_value(key, {'t': 2 + 3 * t, 'trev': 20 - 3 * t, 'tv': 1 + t + T * v}[rule])
+            vals = sorted(set(tag_value(key, {'t': 2 + 3 * t, 't0': 3 * t, 'trev': 20 - 3 * t, 'tv': 1 + t + T * v}[rule])
                               for t in range(T) for v in range(V)))
             rng.shuffle(vals)
             cfg['time_order'] = {'key': key, 'abs': vals}
@@ -852,7 +910,7 @@ def rand_config(rng, tier, want=None, force_abs=False):
                 cfg['time_order'] = {'key': key, 'abs': [str(v) for v in vals], 'as_str': True}
     if mode in ('vec', 'timevec'):
         key = rng.choice([k for k in VEC_TAGS if k not in rules])
-        rules[key] = 'v'
+        rules[key] = rng.choice(['v', 'v0'])
         cfg['vector_order'] = {'key': key, 'abs': None}
     if mode == 'vec' and T > 1:
         pass    # volumes with equal vector value and no time key: sorted by position only -> not a grid (kept: must be refused)
@@ -909,7 +967,12 @@ def pos_key(f):
 
 DEFECTS = ['none', 'none', 'drop1', 'dropk', 'drop_volume', 'drop_position', 'duplicate', 'misfiled_dup',
            'tie_straddle', 'gap', 'gap', 'rows', 'cols', 'spacing_lo', 'spacing_hi', 'orient_lo', 'orient_hi',
-           'nopix', 'collide', 'missing_key', 'extra_position', 'vec_uneven', 'bad_ordinate', 'vec_straddle', 'vec_straddle', 'vec_straddle', 'vec_move', 'pos_swap', 'pos_swap', 'vol_count', 'vol_count', 'vol_count']
+           'nopix', 'collide', 'missing_key', 'extra_position', 'vec_uneven', 'bad_ordinate', 'vec_straddle', 'vec_straddle', 'vec_straddle', 'vec_move', 'pos_swap', 'pos_swap', 'vol_count', 'vol_count', 'vol_count', 'collide_each', 'collide_each']
+
+
+def vec_val(cfg, key, v):
+    """the number behind the vector tag of component v under the case's rule ('v': 1 + 2v, 'v0': 2v)"""
+    return 2 * v if cfg['tagrules'].get(key) == 'v0' else 1 + 2 * v
 
 
 def apply_defect(rng, cfg, files, defect):
@@ -993,14 +1056,33 @@ def apply_defect(rng, cfg, files, defect):
     elif defect == 'nopix':
         f = files[pick()]
         f['pix'] = False
-    elif defect == 'collide':
-        # a second file for an occupied cell (same ordinates and position, other content)
-        f = copy.deepcopy(files[pick()])
-        f['dup'] = True
-        f['tags'] = dict(f['tags'])
-        if 'RepetitionTime' in cfg['consts']:
-            f['tags']['RepetitionTime'] = 750.0
-        files.append(f)
+    elif defect in ('collide', 'collide_each'):
+        # a second file for an occupied cell (same ordinates and position, other content); collide_each: one such
+        # file for EVERY (time, vector) value of the grid - ordinate 0 / 0.0 / index 0 of an abs_ordering included
+        def ordkey(f):
+            return (f['cell'][2], f['cell'][1])
+        if defect == 'collide_each':
+            targets = []
+            for tv in sorted(set(ordkey(f) for f in files)):
+                targets.append(rng.choice([f for f in files if ordkey(f) == tv]))
+        elif rng.random() < 0.5:
+            # the cell with the first ordinates of the grid
+            lo = min(ordkey(f) for f in files)
+            targets = [rng.choice([f for f in files if ordkey(f) == lo])]
+        else:
+            targets = [files[pick()]]
+        nokey = (defect == 'collide' and rng.random() < 0.15 and cfg['time_order'] is not None
+                 and cfg['vector_order'] is None)
+        for src in targets:
+            if nokey:
+                # the occupied cell has NO ordinate at all (ordering key absent on both files)
+                src['tags'] = {k: v for k, v in src['tags'].items() if k != cfg['time_order']['key']}
+            f = copy.deepcopy(src)
+            f['dup'] = True
+            f['tags'] = dict(f['tags'])
+            if 'RepetitionTime' in cfg['consts']:
+                f['tags']['RepetitionTime'] = 750.0
+            files.append(f)
     elif defect == 'missing_key':
         keys = [o['key'] for o in (cfg['time_order'],) if o]
         if keys and cfg['vector_order'] is None:
@@ -1091,14 +1173,14 @@ def apply_defect(rng, cfg, files, defect):
                 note.update({'vi': vi, 'up': up, 'ranks': ranks})
                 for f in block:
                     if f['cell'][1] == t_edge and rank(f) in ranks:
-                        f['tags'][vkey] = tag_value(vkey, 1 + 2 * (vi + 1 if up else vi))
-                        f['tags'][tkey] = tag_value(tkey, 1 if up else 97)
+                        f['tags'][vkey] = tag_value(vkey, vec_val(cfg, vkey, vi + 1 if up else vi))
+                        f['tags'][tkey] = tag_value(tkey, -5 if up else 97)
             else:
                 for k in range(rng.randint(1, 2)):
                     f = files[pick()]
                     v2 = rng.choice([v for v in range(V) if v != f['cell'][2]])
-                    f['tags'][vkey] = tag_value(vkey, 1 + 2 * v2)
-                    f['tags'][tkey] = tag_value(tkey, rng.choice([1, 97]) + k)
+                    f['tags'][vkey] = tag_value(vkey, vec_val(cfg, vkey, v2))
+                    f['tags'][tkey] = tag_value(tkey, rng.choice([-5, 97]) + k)
     elif defect == 'vec_uneven':
         if cfg['vector_order'] is not None and V >= 2:
             key = cfg['vector_order']['key']
@@ -1107,7 +1189,7 @@ def apply_defect(rng, cfg, files, defect):
             v2 = (v + 1) % V
             for f in files:
                 if f['cell'][1] == t and f['cell'][2] == v:
-                    f['tags'][key] = tag_value(key, 1 + 2 * v2)
+                    f['tags'][key] = tag_value(key, vec_val(cfg, key, v2))
                     if cfg['time_order'] is not None and cfg['time_order']['abs'] is None and cfg['tagrules'].get(cfg['time_order']['key']) in ('t', 'trev'):
                         f['tags'][cfg['time_order']['key']] = tag_value(cfg['time_order']['key'], 40 + t)
     return renumber(files), note
